@@ -53,6 +53,13 @@ def r19_1(ctx):
                 detail = "arm `%s`%s" % (ps[:90], " if " + expr_str(g)[:60] if g is not None else " (no guard)")
         r.ob("emits are built only under `SetupContext<..>`", ok_pat and ok_guard, C.mloc(ee, n),
              detail if (ok_pat and ok_guard) else detail + " — the name test / type-argument requirement is missing")
+    # E is the *first* type argument, however many follow (`SetupContext<E, S>` since Vue 3.3)
+    exact = [x for x in idx.nodes if x.get("k") in ("LetExpr", "Let") and x.get("init") is not None and "params" in expr_str(x["init"])
+             and any(p_.get("k") == "PSlice" and p_.get("mid") is None for p_ in walk(x["pat"]))]
+    exact += [a_ for m_ in idx.nodes if m_.get("k") == "Match" and "params" in expr_str(m_["scrut"]) for a_ in m_["arms"]
+              if any(p_.get("k") == "PSlice" and p_.get("mid") is None and len(p_.get("before", [])) >= 1 for p_ in walk(a_["pat"]))]
+    r.ob("the event type is the first type argument whatever the number of arguments", not exact, C.mloc(ee, exact[0]) if exact else C.mloc(ee, ee),
+         "first() / get(0)" if not exact else "a slice pattern of exact length selects the type arguments: `SetupContext<E, S>` yields no emits")
     # the context parameter may be written as an identifier or destructured: every binding-pattern form that carries an annotation is read
     forms = {x.get("variant") for x in idx.nodes if x.get("k") in ("PTupleStruct", "PStruct") and x.get("adt") == AST + "Pat"}
     need = {"Ident", "Array", "Object"}
